@@ -106,6 +106,25 @@ CHECKS += [
      "design_ref": "DESIGN.md 4/C07", "technique": TLA + " (Region.tla unc_off machine)",
      "note": "alarms only for the documented usage (markers in comments that start their line, pragma lines on their own line); rendering in C; blank lines at the edge of a region are a known finding"},
 ]
+
+ENGINES += [
+    {"name": "blanklines", "path": "spec/BlankLines.tla spec/BlankLinesTrace.tla spec/StartEnd.tla vlib/checks/c20.py",
+     "serves_properties": ["C20"],
+     "kind_free_text": "TLA+ transcription of do_blank_lines() for one newline chunk (pretended extra line at the file edges, nl_max cap, can_increase_nl, count options) and of newlines_eat_start_end(), iterated as the newline loop does; TLC checks CapRespected, EdgeNeutral, StartEndExact and stability for all small parameter values; real outputs are measured (runs of line breaks outside comments / literals / continued directives / regions, breaks at both file ends, blank lines next to braces) and judged by the trace specification"},
+    {"name": "space", "path": "spec/Space.tla spec/SpaceTrace.tla spec/Fusion.tla vlib/checks/c19.py",
+     "serves_properties": ["C19"],
+     "kind_free_text": "TLA+ model of the column arithmetic of space_text() and the clause each IARF value promises; every Space hook event (rule name logged by do_space, value returned, forced flag, input gap) is joined with the gap measured between the same two tokens in the output bytes and judged against the value configured for the option the rule names, MustSeparate coming from Fusion.tla's lexer"},
+]
+CHECKS += [
+    {"id": "C20", "engine": "blanklines", "level": "model_checking",
+     "text": "BlankLines.tla exhaustive over counts 0..6 x position x nl_max 0..4 x can_increase x requested count x start/end option x min (9k states) including stability under repetition, the variant that keeps the pretended line is rejected; block-structured programs with 0..6 blank lines injected at every line boundary and at both file ends are formatted under configurations that set nl_max 1..4, every blank-line count option within nl_max, the eat_blanks flags and the full start/end matrix, plus corpus pairs with nl_max added; cap, start/end and brace-adjacent blank lines are judged on the output bytes.",
+     "design_ref": "DESIGN.md 4/C20", "technique": TLA + " (BlankLines.tla cap / start-end machine)",
+     "note": "nl_inside_namespace and nl_inside_empty_func are treated as explicit requests for blank lines next to a brace; runs measured via the independent lexer (C family)"},
+    {"id": "C19", "engine": "space", "level": "model_checking",
+     "text": "Space.tla: the arithmetic realises the clause for every (value, forced, input gap, same-line) case and the variant returning another option's value is rejected. On the binary the coded joint assignments (5 runs in which any two of the 256 iarf sp_ options differ at least once) and seeded random joint assignments (thorough: every option x 4 values against a different background value) are run over spacing-dense programs and corpus inputs; each (rule, value, gap) class reported by the Space hook is joined with the gap in the output and judged by SpaceTrace.",
+     "design_ref": "DESIGN.md 4/C19", "technique": TLA + " (Space.tla clause + Fusion.tla MustSeparate)",
+     "note": "alignment / width / tabs off; pairs ending in a comment, pairs split over two output lines and min_sp > 1 are mechanism-only; the statement's Remove exceptions (return, case, macro name) are honoured; C and C++ inputs"},
+]
 _PENDING = "check not built yet in this commit (specification module planned in DESIGN.md 3.1); will be claimed when its check is quiet on the unchanged tree"
 NOT_APPLICABLE = [{"property_id": "C%02d" % i, "reason": _PENDING} for i in range(1, 21) if "C%02d" % i not in {c["id"] for c in CHECKS}]
 NOTES = "All checks: bin/check <ID> --tier quick|thorough; VERIF_SEED is honoured; evidence in /verif/evidence/<ID>.json; known findings in /verif/known_findings.json."
